@@ -133,6 +133,9 @@ func c06Segs(c *runner.Ctx) ([]*gen.Seg, string, func(), error) {
 		}
 		w, err := gen.GenWorld(r, c.TmpDir, fmt.Sprintf("w%d", c.Idx), gen.WorldOpts{MinDocs: 1})
 		if err != nil {
+			if w != nil {
+				return w.Segs, "world", w.Close, err // the segments built before the failure are still visited
+			}
 			return nil, "world", func() {}, err
 		}
 		return w.Segs, "world", w.Close, nil
@@ -146,7 +149,12 @@ func c06Run(c *runner.Ctx) {
 	c.Inc("cases."+shape, 1)
 	if err != nil {
 		c.Note(fmt.Sprintf("case %d: workload construction failed (C01/C02/C04's business): %s", c.Idx, clipS(err.Error(), 3000)))
-		return
+		if len(segs) == 0 {
+			return
+		}
+		for _, s := range segs {
+			s.X.Index()
+		}
 	}
 	// visit plan over all segments so that the per-segment / pooled buffers are recycled across blocks and segments
 	type visit struct{ seg, doc int }
